@@ -516,7 +516,7 @@ func sameLazyElems(a, b []value) bool {
 			return false
 		}
 		if oka {
-			if la.v.t != lb.v.t {
+			if !la.sameTerm(lb) {
 				return false
 			}
 			continue
@@ -535,4 +535,20 @@ func sameLazyElems(a, b []value) bool {
 		}
 	}
 	return true
+}
+
+func init() {
+	keccakConcat := func(args []value) []value {
+		var pre []value
+		for _, p := range args[0].([]value) {
+			pre = append(pre, p.([]value)...)
+		}
+		return pre
+	}
+	externals["github.com/ethereum/go-ethereum/crypto.Keccak256"] = func(fr *frame, args []value) value {
+		return fr.uninterpretedHash("keccak256", keccakConcat(args), 32, keccak256)
+	}
+	externals["github.com/ethereum/go-ethereum/crypto.Keccak256Hash"] = func(fr *frame, args []value) value {
+		return array(fr.uninterpretedHash("keccak256", keccakConcat(args), 32, keccak256))
+	}
 }
